@@ -101,18 +101,23 @@ def _run(rs, ctx):
     wit = {"cfg": cfg, "chunks": chunks}
     planes0 = None
     first_len = 0
+    refit_at = int(rs.integers(1, len(chunks))) if len(chunks) > 2 and rs.integers(3) == 0 else -1
+    wit["refit_at_chunk"] = refit_at
     for ci, c in enumerate(chunks):
-        op = dict(c, op="fit" if ci == 0 else "partial_fit")
+        refit = ci == refit_at  # a second fit after the bandit has already answered queries: new planes, new tables
+        op = dict(c, op="fit" if (ci == 0 or refit) else "partial_fit")
         try:
             gen.apply_op(m, op)
         except Exception as ex:  # noqa: BLE001
             ctx.violation("%s raised %s: %s" % (gen.short(op), type(ex).__name__, str(ex)[:80]), wit)
             return
+        if refit:
+            rows_d, rows_r, rows_X = [], [], []
         rows_d += c["d"]
         rows_r += c["r"]
         rows_X += c["X"]
         planes = {k: np.array(v, dtype=float) for k, v in m._imp.table_to_plane.items()}
-        if ci == 0:
+        if ci == 0 or refit:
             first_len = len(rows_d)
             planes0 = planes
             if len(planes) != nt or any(p.shape != (d, nd) for p in planes.values()):
@@ -124,7 +129,7 @@ def _run(rs, ctx):
             if any(not np.array_equal(planes[k], planes0[k]) for k in planes0):
                 ctx.violation("hyperplanes changed during partial_fit (they must stay fixed after fit)", wit, kind="planes_changed")
                 return
-        if ci not in (0, len(chunks) - 1) and rs.integers(2):
+        if ci not in (0, len(chunks) - 1) and not refit and ci + 1 != refit_at and rs.integers(2):
             continue
         pats = [pattern(x, planes0) for x in rows_X]
         Q, kinds = [], []
